@@ -8,14 +8,14 @@ the grouping tag of numbers below 1000), for every text `t` with `TextOK t`:
 
 * `asciiSpaceOnly t` — the only `char::is_whitespace` characters of the text are blank, tab, LF, CR
   (excludes exactly the class of the known findings F27 / F28: Unicode white space that Rust's `trim` strips but the
-  parser's `space0/space1` do not skip);
-* `parensClosed t` — every `(` is followed later in the text by a `)` (a payee beginning with an unclosed `(` is read
-  as a payee, which the context-free predicate `wfPayee` does not admit; the round trip itself is unaffected).
+  parser's `space0/space1` do not skip).
 
-Both are decidable, both are shown necessary for the image statement by kernel-evaluated witnesses.  Consequently, for
-every such text that parses, `format` produces a text that parses to exactly the same entries (numbers: same value, same
-decimal places, same grouping style wherever there are thousands to group) and that `format` leaves unchanged — for any
-display-width function.
+It is decidable and shown necessary for the image statement by kernel-evaluated witnesses.  (Until `paren_str` was made to
+close on its line there was a second hypothesis, `parensClosed t`: a payee beginning with an unclosed `(` was outside
+`wfPayee`.  Now such a payee is read back as printed, `wfPayee` admits it, and the hypothesis is gone:
+`C05_image_unclosed_paren`.)  Consequently, for every such text that parses, `format` produces a text that parses to
+exactly the same entries (numbers: same value, same decimal places, same grouping style wherever there are thousands to
+group) and that `format` leaves unchanged — for any display-width function.
 -/
 namespace Okane.C05
 open Okane Okane.Parse Okane.Unparse Okane.C05Image
@@ -39,14 +39,26 @@ theorem C05_idempotent_text (w : List Char → Nat) (t f : List Char) (ht : Text
     format w f = .ok f :=
   C05Image.C05_idempotent_text w t f ht hf
 
-/-- both hypotheses on the text are needed for the image statement (F27, F28, form feed after tag words, U+3000 before
-`*x`; `2024/01/01 (abc⏎`) -/
+/-- the hypothesis on the text is needed for the image statement (F28, F27, form feed after tag words, U+3000 before
+`*x`) -/
 theorem C05_image_hypotheses_needed :
-    (∃ t, parensClosed t = true ∧ asciiSpaceOnly t = false ∧ imageOk t = false) ∧
-    (∃ t, asciiSpaceOnly t = true ∧ imageOk t = false) :=
-  ⟨⟨witF28, by decide +kernel⟩, ⟨witParen, not_C05_image_full_ascii⟩⟩
+    (∃ t, asciiSpaceOnly t = false ∧ imageOk t = false) ∧
+    (∀ t ∈ [C05Image.witF28, C05Image.witF27, witFF, witStar], asciiSpaceOnly t = false ∧ C05Image.imageOk t = false) :=
+  ⟨⟨witF28, by decide +kernel⟩, by decide +kernel⟩
+
+/-- `TextOK` is exactly `asciiSpaceOnly` -/
+theorem textOK_iff (t : List Char) : TextOK t ↔ asciiSpaceOnly t = true := C05Image.textOK_iff t
+
+/-- regression (the former necessity witness of `parensClosed`): `2024/01/01 (abc⏎` parses, and its image is printable;
+so are `2024/01/01 (abc⏎  A  1 USD⏎⏎account X)⏎` (the code no longer runs to the `)` of a later line) and
+`2024/01/01 * (abc ; x) y⏎` (code `abc ; x`) -/
+theorem C05_image_unclosed_paren :
+    (asciiSpaceOnly witParen = true ∧ imageOk witParen = true ∧ (parseEntries witParen).isOk = true) ∧
+    ((parseEntries witParen2).isOk = true ∧ C05Image.imageOk witParen2 = true) ∧
+    ((parseEntries witParen3).isOk = true ∧ C05Image.imageOk witParen3 = true) :=
+  ⟨C05Image.C05_image_unclosed_paren, image_unclosed_paren.2.1, image_unclosed_paren.2.2⟩
 
 example : TextOK exText ∧ (parseEntries exText).isOk = true := by
-  refine ⟨⟨by decide +kernel, by decide +kernel⟩, by decide +kernel⟩
+  refine ⟨⟨by decide +kernel⟩, by decide +kernel⟩
 
 end Okane.C05
